@@ -1,6 +1,32 @@
+import SpecKitV.Props.MisoGen
 import SpecKitV.Lemmas.MisoResidual
 import SpecKitV.Props.AttrsA
 
+#print axioms gen_numeric_eq_model
+#print axioms gen_analytic_eq_model
+#print axioms MisoGen.numeric_assembly
+#print axioms MisoGen.analytic_T
+#print axioms MisoGen.analytic_S
+#print axioms MisoGen.analytic_S00
+#print axioms MisoGen.analytic_H
+#print axioms MisoGen.numeric_H_solves
+#print axioms MisoGen.analytic_H_solves
+#print axioms gen_numeric_eq_resid
+#print axioms gen_numeric_is_norm
+#print axioms gen_numeric_normal_eq
+#print axioms gen_numeric_le_output
+#print axioms gen_numeric_minimises
+#print axioms gen_numeric_exact_combination_zero
+#print axioms gen_numeric_remix_invariant
+#print axioms gen_analytic_eq_resid
+#print axioms gen_analytic_normal_eq
+#print axioms gen_analytic_le_output
+#print axioms gen_analytic_exact_combination_zero
+#print axioms gen_analytic_remix_invariant
+#print axioms gen_solvers_agree
+#print axioms gen_siso_eq_GyyRx
+#print axioms gen_siso_eq_miso_q1
+#print axioms MisoGen.abs_csqrt
 #print axioms Miso.residual_is_norm
 #print axioms Miso.residual_real_nonneg
 #print axioms Miso.normal_eq_minimises
